@@ -102,7 +102,7 @@ def h_never_undefined(c0: bool, c1: bool, c2: bool, c3: bool, c4: bool, c5: bool
     """
     # for one program (VERIF_C08_WHICH) rejected as 'not defined': expected to be refuted by a path to an unassigned read
     global LAST_DETAIL
-    r = e8.run_defined(FNS[WHICH], [c0, c1, c2, c3, c4, c5, c6, c7, c8, c9])
+    r = e8.run_defined(FNS[WHICH], [c0, c1, c2, c3, c4, c5, c6, c7, c8, c9], dead_as_live=True)
     if r.startswith("undefined"):
         LAST_DETAIL = f"witness path for {VERDICT[WHICH][1]}: {r}"
         return False
@@ -128,7 +128,7 @@ def h_defined_exhaustive():
     global LAST_DETAIL
     cut = False
     for cs in itertools.product([False, True], repeat=L):
-        r = e8.run_defined(FNS[WHICH], list(cs))
+        r = e8.run_defined(FNS[WHICH], list(cs), dead_as_live=True)
         if r.startswith("undefined"):
             return True
         cut = cut or r == "out-of-choices"
